@@ -21,3 +21,5 @@ example : readAll auditParams (writeAll auditParams 0 [List.replicate 20 1, [], 
     = ([List.replicate 20 1, [], [2, 3]], .eof) := by decide
 #print axioms C12_truncation_prefix
 #print axioms C12_truncation_repair
+#print axioms C12_records_before_damage
+#print axioms C12_damage_after_prefix
